@@ -29,8 +29,19 @@ PROPERTY = "C15"
 LEAN_MODULES = ["TapkeeVerif.Props.C15"]
 LEAN_EXES = ["model_c15"]
 REQUIRED_THEOREMS = [
+    "TapkeeVerif.Omp.race_free_deterministic",
+    "TapkeeVerif.Omp.race_free_deterministic_prog",
+    "TapkeeVerif.Omp.triplet_sum_perm_invariant",
+    "TapkeeVerif.Omp.region_deterministic",
     "TapkeeVerif.Omp.regions_covered",
-]
+    "TapkeeVerif.Omp.all_regions_race_free",
+    "TapkeeVerif.Omp.exact_regions_no_critical",
+    "TapkeeVerif.Omp.weight_regions_critical_append_only",
+] + ["TapkeeVerif.Omp.disjoint_" + n for n in (
+    "compute_diffusion_matrix", "compute_distance_matrix_1", "compute_distance_matrix_2",
+    "compute_shortest_distances_matrix_1", "compute_shortest_distances_matrix_2",
+    "compute_shortest_distances_matrix_1_fib", "compute_shortest_distances_matrix_2_fib",
+    "hessian_weight_matrix", "linear_weight_matrix", "tangent_weight_matrix", "matrix_from_callback", "triangulate")]
 
 THREADS = [1, 2, 3, 8, 16]
 TOL_INTERMEDIATE = Fraction(1, 10 ** 10)   # property text: intermediate matrices agree to 1e-10 relative
@@ -49,8 +60,29 @@ _SUMMARY = {}
 
 
 # ----------------------------------------------------------------------------- translator step
+_BUILDS = {}
+
+
+def start_builds(ctx):
+    """compile the harness binaries in the background while the translator and lake run"""
+    quick = ctx.tier == "quick"
+    src_inc = "-I" + os.path.join(vlib.REPO, "src")
+    jobs = {"asan": ("c15_omp.cpp", "c15_omp", quick_flags() if quick else vlib.HARNESS_FLAGS + [src_inc], "g++"),
+            "emb": ("c15_omp.cpp", "c15_emb", emb_flags(), "g++")}
+    tree = sched_tree(ctx)
+    jobs["sched"] = ("c15_omp.cpp", "c15_sched", sched_flags(tree), "g++")
+    if not quick:
+        jobs["fib"] = ("c15_omp.cpp", "c15_fib", quick_flags() + ["-DTAPKEE_USE_FIBONACCI_HEAP"], "g++")
+        jobs["tsan"] = ("c15_omp.cpp", "c15_tsan", tsan_flags(), "clang++-14")
+    ex = concurrent.futures.ThreadPoolExecutor(max_workers=len(jobs))
+    for k, v in jobs.items():
+        _BUILDS[k] = ex.submit(ctx.build_harness, v[0], v[1], (), v[2], v[3])
+    ex.shutdown(wait=False)
+
+
 def translate(ctx):
     import translate_omp
+    start_builds(ctx)
     s = translate_omp.translate(repo=vlib.REPO, repo_hash=ctx.repo_hash)
     _SUMMARY.clear()
     _SUMMARY.update(s)
@@ -93,7 +125,10 @@ def parse_sparse(text):
     return out
 
 
-def compare_maps(a, b, tol):
+MAXREL = {}
+
+
+def compare_maps(a, b, tol, tag=None):
     """exact comparison |a-b| <= tol * scale on rationals; returns (ok, detail, n_exact_equal, n_within_tol)"""
     if set(a) != set(b):
         only = sorted(set(a) ^ set(b))[:5]
@@ -108,6 +143,8 @@ def compare_maps(a, b, tol):
             continue
         if not isinstance(x, Fraction) or not isinstance(y, Fraction):
             return False, "entry %s: %s vs %s" % (k, x, y), n_eq, n_tol
+        if tag and scale:
+            MAXREL[tag] = max(MAXREL.get(tag, 0.0), float(abs(x - y) / scale))
         if abs(x - y) <= tol * scale:
             n_tol += 1
             continue
@@ -194,6 +231,8 @@ def gen_params(rng, r, quick, hunt):
     else:
         raise ValueError(r)
     p["seed"] = rng.below(1 << 30) + 1
+    if r in ("dist", "distl", "cli", "diff", "tri") and rng.chance(1, 2):
+        p["asym"] = 1       # asymmetric callback: which of d(i,j), d(j,i) was stored is visible in the result
     return p
 
 
@@ -252,7 +291,7 @@ def judge_group(ctx, runner, r, p, threads, reps, label):
             if h == ref_hash:
                 ctx.stat("approx-class:bit-identical", o["hashes"].count(h))
                 continue
-            ok, why, n_eq, n_tol = compare_maps(refv, parse_sparse(o["vals"][h]), TOL_INTERMEDIATE)
+            ok, why, n_eq, n_tol = compare_maps(refv, parse_sparse(o["vals"][h]), TOL_INTERMEDIATE, "weights:" + r)
             ctx.stat("approx-class:entries-identical", n_eq)
             ctx.stat("approx-class:entries-within-1e-10", n_tol)
             if not ok:
@@ -415,6 +454,9 @@ def model_selftest(ctx):
                     effs.append("r0.%d.%d" % ((r.below(n) if racy else i), r.below(2)))
                 else:
                     effs.append("c")
+            if racy:
+                # read the neighbour's cell, then publish a value that depends on it
+                effs = ["w0.%d.0" % i, "r0.%d.0" % ((i + 1) % n), "w0.%d.1" % i] + effs
             bodies.append(effs)
         total = sum(len(b) for b in bodies)
         sig = []
@@ -478,8 +520,8 @@ def emb_groups(ctx, runner, quick, hunt):
                     if h == rh:
                         ctx.stat("emb:bit-identical", o["hashes"].count(h))
                         continue
-                    okp, whyp, _, _ = compare_maps(rp, parse_dense(o["pres"].get(h, "-")), TOL_INTERMEDIATE)
-                    okg, whyg, ne, nt = compare_maps(rg, gram(parse_dense(o["vals"][h]), N, d), TOL_GRAM)
+                    okp, whyp, _, _ = compare_maps(rp, parse_dense(o["pres"].get(h, "-")), TOL_INTERMEDIATE, "eigenproblem:" + m)
+                    okg, whyg, ne, nt = compare_maps(rg, gram(parse_dense(o["vals"][h]), N, d), TOL_GRAM, "gram:" + m)
                     ctx.stat("emb:gram-entries-identical", ne)
                     ctx.stat("emb:gram-entries-within-1e-6", nt)
                     if not okp:
@@ -643,30 +685,39 @@ def correspond(ctx):
                 if k > 0:
                     ctx.log("   broken:", re.match(r"\s*theorem\s+(\S+)", src[k - 1]).group(1))
 
-    # ---- builds (in parallel)
-    jobs = {"asan": ("c15_omp.cpp", "c15_omp", quick_flags() if quick else vlib.HARNESS_FLAGS + ["-I" + os.path.join(vlib.REPO, "src")], "g++"),
-            "emb": ("c15_omp.cpp", "c15_emb", emb_flags(), "g++")}
-    tree = sched_tree(ctx)
-    jobs["sched"] = ("c15_omp.cpp", "c15_sched", sched_flags(tree), "g++")
-    if not quick:
-        jobs["fib"] = ("c15_omp.cpp", "c15_fib", quick_flags() + ["-DTAPKEE_USE_FIBONACCI_HEAP"], "g++")
-        jobs["tsan"] = ("c15_omp.cpp", "c15_tsan", tsan_flags(), "clang++-14")
-    built = {}
-    with concurrent.futures.ThreadPoolExecutor(max_workers=len(jobs)) as ex:
-        futs = {k: ex.submit(ctx.build_harness, v[0], v[1], (), v[2], v[3]) for k, v in jobs.items()}
-        for k, fu in futs.items():
-            built[k] = fu.result()
-    ctx.log("harness builds done:", ", ".join("%s=%s" % (k, "ok" if v[0] else "FAILED") for k, v in built.items()))
-    runners = {}
-    for k, (binary, log) in built.items():
-        if not binary:
-            if k == "tsan":
-                ctx.extra["tsan"] = {"skipped": "clang++-14 -fsanitize=thread -fopenmp build failed in this sandbox: " + log[-400:]}
-                continue
-            ctx.broken("harness-build:" + k, "harness c15_omp.cpp (%s build)" % k,
-                       "harness does not compile against the working tree (%s build): %s" % (k, log[-800:]))
-            continue
-        runners[k] = Runner(ctx, binary, k)
+    # ---- builds (started in the background by translate())
+    if not _BUILDS:
+        start_builds(ctx)
+    class Lazy(dict):
+        """a binary is waited for only when its phase starts (the public-API build takes twice as long as the others)"""
+
+        def resolve(self, k):
+            if dict.__contains__(self, k) or k not in _BUILDS:
+                return
+            binary, log = _BUILDS[k].result()
+            ctx.log("harness build %s: %s" % (k, "ok" if binary else "FAILED"))
+            if not binary:
+                if k == "tsan":
+                    ctx.extra["tsan"] = {"skipped": "clang++-14 -fsanitize=thread -fopenmp build failed in this sandbox: " + log[-400:]}
+                else:
+                    ctx.broken("harness-build:" + k, "harness c15_omp.cpp (%s build)" % k,
+                               "harness does not compile against the working tree (%s build): %s" % (k, log[-800:]))
+                _BUILDS.pop(k)
+                return
+            dict.__setitem__(self, k, Runner(ctx, binary, k))
+
+        def __contains__(self, k):
+            self.resolve(k)
+            return dict.__contains__(self, k)
+
+        def __getitem__(self, k):
+            if k not in self:
+                raise KeyError(k)
+            return dict.__getitem__(self, k)
+
+        def get(self, k, d=None):
+            return self[k] if k in self else d
+    runners = Lazy()
     if "asan" not in runners:
         return
 
@@ -678,6 +729,7 @@ def correspond(ctx):
     if translator_ok:
         footprints(ctx, runners["asan"])
 
+    ctx.log("model self-test and footprints done")
     # ---- differential runs of every parallel routine
     r = ctx.rng
     suspects = set()
@@ -703,6 +755,7 @@ def correspond(ctx):
                         f.case = dict(f.case, params=q, threads=ths, shrunk_from=p,
                                       line=case_line(routine, ths[-1], q, reps=max(reps, 6)))
                 break
+    ctx.log("differential runs (asan build) done")
     # ---- OMP_NUM_THREADS from the environment (the property's literal wording), one process per thread count
     for routine in EXACT_ROUTINES:
         if routine in failed:
@@ -721,7 +774,7 @@ def correspond(ctx):
                            "line": case_line(routine, 0, p, reps=2)}, detail={"hashes": {str(k): v for k, v in hs.items()}})
     # ---- other iteration-to-thread assignments: schedule(runtime) build under OMP_SCHEDULE variations
     if "sched" in runners:
-        scheds = ["static,1", "dynamic,1", "guided"] if quick else ["static,1", "static,3", "dynamic,1", "dynamic,4", "guided", "auto"]
+        scheds = ["static,1", "dynamic,1"] if quick else ["static,1", "static,3", "dynamic,1", "dynamic,4", "guided", "auto"]
         for routine in EXACT_ROUTINES + APPROX_ROUTINES:
             if routine in failed:
                 continue
@@ -738,6 +791,7 @@ def correspond(ctx):
                     ctx.stat("schedule:" + sc.split(",")[0])
                 if routine in failed:
                     break
+    ctx.log("schedule(runtime) runs done")
     # ---- Fibonacci-heap configuration of the Dijkstra regions
     if "fib" in runners:
         for routine in ("geo", "geol"):
@@ -748,6 +802,7 @@ def correspond(ctx):
     # ---- public API, Gram level
     if "emb" in runners:
         emb_groups(ctx, runners["emb"], quick, hunt)
+    ctx.log("public API runs done")
     # ---- ThreadSanitizer (supporting evidence)
     if "tsan" in runners:
         tsan_run(ctx, runners["tsan"].binary)
@@ -760,6 +815,7 @@ def correspond(ctx):
                              "critical_accesses": sum(1 for a in g["accesses"] if a["critical"]),
                              "reentrant_calls_assumed": g["reentrantCalls"], "flags": g["flags"]} for g in regs]
     ctx.extra["pragmas"] = len(_SUMMARY.get("pragmas") or [])
+    ctx.extra["max_relative_difference_observed"] = {k: "%.3g" % v for k, v in sorted(MAXREL.items())}
     ctx.cov["rule"] = ("every parallel routine (%s; public API methods %s) on seed-derived inputs (N 2..240, k 2..10, d 1..2), "
                        "each run with OMP_NUM_THREADS in %s x %d repetitions (asan build), under OMP_SCHEDULE variations in a "
                        "schedule(runtime) build, and via the environment variable; non-trivial = at least two distinct threads "
